@@ -3,7 +3,7 @@ CONSTANTS
  MaxUpdates = 0
  MaxReinit = 1 BSChoices = {2} FixBlockSize = TRUE  FixLostWorker = FALSE
  CountCalls = TRUE
- NW = 2  BS = 2  Total = 2  Chunk = 1  HdrSz = 1  TailSz = 2
+ NW = 2  NW0 = 2  NWChoices = {2}  BS = 2  Total = 2  Chunk = 1  HdrSz = 1  TailSz = 2
  Timeout = FALSE  Spurious = FALSE  MayFail = FALSE
  Gives = {0, 1, 100}  Spaces = {0, 1, 100}
  FlushActs = {}
